@@ -49,6 +49,8 @@ impl Diagnostic {
         lookup: &line_col::LineColLookup,
         e: ParseError,
     ) -> Option<Diagnostic> {
+        #[cfg(feature = "verif-hooks")]
+        verif::record_expected(&e);
         match e {
             lalrpop_util::ParseError::InvalidToken { location } => Some(Diagnostic {
                 kind: DiagnosticKind::Error,
@@ -102,5 +104,47 @@ fn expected_token_str(v: &[String]) -> String {
             v[0..v.len() - 2].join(", "),
             v[v.len() - 1]
         ),
+    }
+}
+
+/// Verification hooks: add-only wrappers and a recorder of the raw expectation vectors.
+#[cfg(feature = "verif-hooks")]
+pub mod verif {
+    use super::*;
+    use std::cell::RefCell;
+
+    thread_local! {
+        static EXPECTED: RefCell<Vec<Vec<String>>> = RefCell::new(Vec::new());
+    }
+
+    pub(crate) fn record_expected(e: &ParseError) {
+        match e {
+            lalrpop_util::ParseError::UnrecognizedEOF { expected, .. }
+            | lalrpop_util::ParseError::UnrecognizedToken { expected, .. } => {
+                EXPECTED.with(|v| v.borrow_mut().push(expected.clone()));
+            }
+            _ => (),
+        }
+    }
+
+    /// Drain the expectation vectors recorded (in emission order) on this thread.
+    pub fn take_expected() -> Vec<Vec<String>> {
+        EXPECTED.with(|v| std::mem::take(&mut *v.borrow_mut()))
+    }
+
+    pub fn expected_token_str(v: &[String]) -> String {
+        super::expected_token_str(v)
+    }
+
+    pub fn from_parse_error(lookup: &line_col::LineColLookup, e: ParseError) -> Option<Diagnostic> {
+        Diagnostic::from_parse_error(lookup, e)
+    }
+
+    pub fn from_error_recovery(
+        msg: &str,
+        lookup: &line_col::LineColLookup,
+        error_recovery: ErrorRecovery,
+    ) -> Option<Diagnostic> {
+        Diagnostic::from_error_recovery(msg, lookup, error_recovery)
     }
 }
